@@ -218,7 +218,9 @@ func filterOpOnDataType(rec []byte, qValDte *DtypeEnclosure, fop FilterOperator,
 				return filterOpOnRecNumberEncType(rec, qValDte, fop, isRegexSearch, recDte)
 			}
 
-			return false, nil
+			// A non-string value cannot equal a string literal, so = does not match but != does
+			// (same rule as searching for a number in a string-only field in fopOnNumber).
+			return fop == NotEquals, nil
 		}
 		return fopOnString(rec, qValDte, fop, isRegexSearch, isCaseInsensitive)
 	case SS_DT_BOOL:
